@@ -59,17 +59,17 @@ Definition it_valid (it : iter) : bool := match it with AtElem _ _ _ => true | I
 Definition visit_fwd (it : iter) : list kv := match it with AtElem _ x a => x :: a | Invalid => [] end.
 Definition visit_bwd (it : iter) : list kv := match it with AtElem b x _ => x :: b | Invalid => [] end.
 
-(* the loop body shared by all scans of iterator.go:
-     key := it.Key(); if stop(key) { break }; data = append(data, kv); count++;
-     if limit != -1 && count >= limit { break }
-   over the visit sequence [l]; [count] is the number of elements appended so far. *)
+(* the loop shared by all scans of iterator.go (repaired limit handling):
+     for seek; it.Valid() && !limitReached(limit, count); step { key := it.Key(); if stop(key) { break };
+                                                                 data = append(data, kv); count++ }
+   with limitReached(limit, count) = limit >= 0 && count >= limit, over the visit sequence [l]. *)
 Fixpoint scan_loop (stop : key -> bool) (limit : Z) (count : Z) (l : list kv) : list kv :=
   match l with
   | [] => []
   | x :: t =>
-      if stop (fst x) then []
-      else let count' := (count + 1)%Z in
-           x :: (if negb (limit =? -1)%Z && (count' >=? limit)%Z then [] else scan_loop stop limit count' t)
+      if (limit >? -1)%Z && (count >=? limit)%Z then []
+      else if stop (fst x) then []
+      else x :: scan_loop stop limit (count + 1)%Z t
   end.
 
 (* iterateRange(iter, start, end, limit, reverse), iter = NewIter(nil) *)
@@ -93,10 +93,10 @@ Definition iterate_key (db : smap) (p : key) (limit : Z) (reverse : bool) : list
 Definition db_get (db : smap) (k : key) : option val := lookup db k.
 
 (* ---- declarative scans (the oracle): the keys inside the bounds, in order, truncated ----
-   iterator.go counts after appending, so every limit other than -1 returns at least one element:
-   the effective limit of 0 (and of negative values other than -1) is 1. *)
+   a limit >= 0 is the maximum number of results (0 = none), any negative limit = no limit: exactly the reading of
+   diffdb's mergeSortLimit ([SMap.take_limit]), so that both layers agree for every limit a caller can pass. *)
 Definition eff_limit (limit : Z) (l : list kv) : list kv :=
-  if (limit =? -1)%Z then l else firstn (Z.to_nat (Z.max 1 limit)) l.
+  if (limit >? -1)%Z then firstn (Z.to_nat limit) l else l.
 Definition dir (reverse : bool) (l : list kv) : list kv := if reverse then rev l else l.
 
 Definition range_spec (db : smap) (s e : key) (limit : Z) (reverse : bool) : list kv :=
